@@ -7,6 +7,8 @@ RULES = {
     "R-LINK": ("rules.accounting", "r_link"),
     "R-WINDOW": ("rules.accounting", "r_window"),
     "R-BULKDROP-GUARD": ("rules.accounting", "r_bulkdrop_guard"),
+    "R-ACCT": ("rules.acct", "r_acct"),
+    "R-CTRL-WRITE": ("rules.acct", "r_ctrl_write"),
     "R-ERASE-BEFORE": ("rules.ownership", "r_erase_before"),
     "R-OWNING-ITER": ("rules.ownership", "r_owning_iter"),
     "R-DUP-FORGET": ("rules.ownership", "r_dup_forget"),
@@ -33,7 +35,7 @@ RULE_CONFIGS = {}
 
 PROPS = {
     "C04": {
-        "rules": ["R-WINDOW", "R-DROPGLUE", "R-LINK", "R-BULKDROP-GUARD"],
+        "rules": ["R-WINDOW", "R-DROPGLUE", "R-LINK", "R-BULKDROP-GUARD", "R-ERASE-BEFORE", "R-ACCT", "R-DRAIN-PROTOCOL"],
         "level": "other",
         "decided": "no user callback can run inside a broken-invariant window of any table operation without a live scope guard (R-WINDOW, all callback sites of all operations); "
                    "accounting repairs do not depend on drop glue (R-DROPGLUE); table and hasher of a map are never left mismatched by an unwinding Clone (R-LINK); "
